@@ -164,7 +164,10 @@ class LnLOracle:
                 rt, tt = self.ref(tw)
                 inst = np.maximum(1000.0 * self.instability(np.array(rows), tw), self.forward_bound(rows, tw))
                 for k, i in enumerate(rows):
-                    if np.isfinite(inst[k]) and abs(impl[i] - rt[i]) <= inst[k] + band1(rt[i]) and inst[k] > 0:
+                    # under K4 the kernel divides by a zero prior variance (A^-1 has an infinite entry): when that makes the
+                    # route's error bound unbounded, any value is attributable to K4 (+K5)
+                    unbounded_k4 = ("K4" in tw) and not np.isfinite(inst[k])
+                    if unbounded_k4 or (np.isfinite(inst[k]) and abs(impl[i] - rt[i]) <= inst[k] + band1(rt[i]) and inst[k] > 0):
                         verdicts[i] = ("known", tuple(sorted(tw)) + ("K5",))
                         remaining.discard(i)
         for i in remaining:
